@@ -29,38 +29,46 @@ open Heph Heph.Ty
 /-! ## 1. Soundness -/
 
 /-- **C06, soundness.** Whenever the type system answers that `s` is a subtype of `t` — with
-    any fuel — `s` is a subtype of `t` in the declarative relation. -/
-theorem isSub_sound (fuel : Nat) (s t : Ty) (hs : wf s = true) (ht : wf t = true)
-    (h : isSub fuel s t = .yes) : SubT s t :=
-  (sound_all fuel).1 s t hs ht h
+    any fuel — `s` is a subtype of `t` in the declarative relation of every universe (class
+    table) that contains the two types. -/
+theorem isSub_sound (U : Ty → Prop) (hU : ClosedU U) (fuel : Nat) (s t : Ty) (us : U s) (ut : U t)
+    (hs : wf s = true) (ht : wf t = true) (h : isSub fuel s t = .yes) : SubT U s t :=
+  (sound_all hU fuel).1 s t us ut hs ht h
 
 /-- `SimpleClassifier.is_subtype` (the `super().is_subtype` of instantiations) is sound -/
-theorem nominal_sound (fuel : Nat) (s t : Ty) (hs : wf s = true) (ht : wf t = true)
-    (h : nominal fuel s t = .yes) : SubT s t :=
-  (sound_all fuel).2.1 s t hs ht h
+theorem nominal_sound (U : Ty → Prop) (hU : ClosedU U) (fuel : Nat) (s t : Ty) (us : U s) (ut : U t)
+    (hs : wf s = true) (ht : wf t = true) (h : nominal fuel s t = .yes) : SubT U s t :=
+  (sound_all hU fuel).2.1 s t us ut hs ht h
 
 /-- the argument loop of `ParameterizedType.is_subtype` only accepts contained argument lists;
     `projOK tps as` is the part of `wf (param _ con as _)` that concerns `tps = conParams con` -/
-theorem containedL_sound (fuel : Nat) (tps as bs : List Ty) (ha : wfL as = true) (hb : wfL bs = true)
-    (hp : projOK tps as = true) (h : containedL fuel tps as bs = .yes) : ContL tps as bs :=
-  (sound_all fuel).2.2.1 tps as bs ha hb hp h
+theorem containedL_sound (U : Ty → Prop) (hU : ClosedU U) (fuel : Nat) (tps as bs : List Ty)
+    (ua : ∀ a ∈ as, U a) (ub : ∀ b ∈ bs, U b) (ha : wfL as = true) (hb : wfL bs = true)
+    (hp : projOK tps as = true) (h : containedL fuel tps as bs = .yes) : ContL U tps as bs :=
+  (sound_all hU fuel).2.2.1 tps as bs ua ub ha hb hp h
 
 /-- `_is_type_arg_contained` is sound: a reversed variance or an ignored bound is never accepted -/
-theorem contained_sound (fuel : Nat) (a b tp : Ty) (ha : wf a = true) (hb : wf b = true)
-    (hp : projOK1 tp a = true) (h : contained fuel a b tp = .yes) : Cont tp a b :=
-  (sound_all fuel).2.2.2 a b tp ha hb hp h
+theorem contained_sound (U : Ty → Prop) (hU : ClosedU U) (fuel : Nat) (a b tp : Ty) (ua : U a)
+    (ub : U b) (ha : wf a = true) (hb : wf b = true) (hp : projOK1 tp a = true)
+    (h : contained fuel a b tp = .yes) : Cont U tp a b :=
+  (sound_all hU fuel).2.2.2 a b tp ua ub ha hb hp h
 
-/-- soundness of the top-level `s.is_subtype(t)` -/
+/-- soundness of the top-level `s.is_subtype(t)`, in the least universe of the two types
+    (hence, by `SubT.mono`, in every universe that contains them) -/
 theorem isSubtype_sound (s t : Ty) (hs : wf s = true) (ht : wf t = true)
-    (h : isSubtype s t = .yes) : SubT s t :=
-  isSub_sound _ s t hs ht h
+    (h : isSubtype s t = .yes) : SubT (pairU s t) s t :=
+  isSub_sound _ (closedU_pairU s t) _ s t (pairU_left s t) (pairU_right s t) hs ht h
+
+theorem isSubtype_sound_in (U : Ty → Prop) (hU : ClosedU U) (s t : Ty) (us : U s) (ut : U t)
+    (hs : wf s = true) (ht : wf t = true) (h : isSubtype s t = .yes) : SubT U s t :=
+  isSub_sound U hU _ s t us ut hs ht h
 
 /-- `is_assignable` answers yes only for declarative subtypes, for a pair of the regenerated
     numeric widening table (`Short` to `Integer`, …: both built-ins), or for two Java arrays
     of the same primitive element type. -/
 theorem assignable_sound (extra : List (String × String)) (s t : Ty) (hs : wf s = true)
     (ht : wf t = true) (h : isAssignable extra s t = .yes) :
-    SubT s t ∨
+    SubT (pairU s t) s t ∨
     (∃ c nm nt p ss c' nm' nt' p' ss', s = builtin c nm nt p ss ∧ t = builtin c' nm' nt' p' ss' ∧
       (c, c') ∈ extra) ∨
     (∃ nm con a as ss nm' con' b bs ss', s = param nm con (a :: as) ss ∧
